@@ -77,7 +77,7 @@ SerialCases == { Case("crl-serial", [Base EXCEPT !.crlNumber = n, !.revoked = <<
                    n \in SerialValues, s \in SerialValues }
 
 IdpCases == { Case("crl-idp", [Base EXCEPT !.idp = i, !.revoked = r], <<>>, "ed25519", Kid("sha256")) :
-                i \in {NoIdp} \cup {Idp(u, sc) : u \in {<<"$u1">>, <<"$u1", "$u2">>, <<"$u1", "$u2", "$u3">>}, sc \in {"none", "user", "ca"}},
+                i \in {NoIdp} \cup {Idp(u, sc) : u \in {<<>>, <<"$u1">>, <<"$u1", "$u2">>, <<"$u1", "$u2", "$u3">>}, sc \in {"none", "user", "ca"}},
                 r \in {<<>>, <<E0>>} }
 
 KidMethods == {Kid("sha256"), Kid("sha384"), Kid("sha512"), KidPre(<<1, 2, 3, 4>>), KidPre(<<>>)}
